@@ -17,6 +17,7 @@ import Upnp.Lemmas.C12Ops
 import Upnp.Lemmas.C12Sub
 import Upnp.Lemmas.C12Renew
 import Upnp.Lemmas.C12Mon
+import Upnp.Lemmas.C12Rep
 import Upnp.Spec.C12
 namespace Upnp.C12
 open Upnp PyDict
@@ -402,6 +403,30 @@ theorem failure_reported_once (cfg : Cfg) (st : St) (rnow : Time) (rest : List (
     have hun' : (reac == Reac.unreach) = false := by simp [hun]
     simp only [hacc, Bool.false_eq_true, if_false, hfb, hun']
     exact ⟨_, rfl, rfl, rfl, rfl, rfl⟩
+
+/-- **report_trace** (the judge's "a failed renewal is reported once" clause, whole-trace form): for every
+    number of services, publisher script and sequence of caller operations, the clause monitor `repMon` of
+    the run-time judge, run over the model's complete trace, flags nothing: every renewal that finally
+    fails is followed at its reply time by exactly one empty-list callback for its service with `available`
+    cleared iff the failure was a connection error, a refused renewal is followed by the fall-back SUBSCRIBE,
+    no empty-list callback occurs without such a cause, a renewal cancelled by an unsubscribe is not
+    reported, and every snapshot shows the `available` flag the reports imply. -/
+theorem report_trace (n : Nat) (script : List Entry) (dflt : Entry) (ops : List Op) :
+    (repMon (run genCfg n script dflt ops).trace).bad = [] := by
+  rw [repMon_trace]
+  suffices H : ∀ st, Core st → TaskOk st → RepB st → RepB (ops.foldl (step genCfg n) st) from
+    (H _ (Core.init script dflt) (by simp [TaskOk, init])
+      ⟨RepInv.init script dflt, fun _ => by simp [Strict, init]⟩).1.bad
+  induction ops with
+  | nil => intro st _ _ hi; exact hi
+  | cons op r ih =>
+    intro st h ht hi
+    have hc := step_core genCfg gen_shapes.2.1 n st op h ht
+    refine ih _ hc.1 hc.2 ?_
+    cases op with
+    | sub auto => exact rep_doSub genCfg n auto st h hi
+    | wait d => exact rep_doWait genCfg gen_shapes.1 gen_shapes.2.1 d st hi
+    | unsub => exact rep_doUnsub genCfg gen_shapes.1 gen_shapes.2.1 st h ht hi
 
 /-- non-vacuity: an unreachable publisher at the first renewal: one callback, device marked unavailable -/
 example :
